@@ -233,6 +233,7 @@ class SimSocketModule:
         c = net.choose("getaddrinfo", net.menu.get("getaddrinfo", ()))
         net.events.append((len(net.events), net.call, "getaddrinfo", -1, host, c))
         if c == "gaierror":
+            net.hard.append((net.call, ("tcp", host, int(port)), c))
             raise _realsocket.gaierror(-2, "Name or service not known")
         if c.startswith("int:"):
             raise INTERRUPTS[c[4:]]()
